@@ -328,6 +328,12 @@ def call_native(I, fn, args, kwargs):
         if ext is not None:
             I.ctx.assumptions_used.add(f"external:{qn}")
             return ext(I, list(args), kwargs)
+        if not isinstance(fn, (types.FunctionType, types.BuiltinFunctionType, types.MethodType, type)):
+            qn2 = f"{type(fn).__module__}.{type(fn).__qualname__}.__call__"
+            ext = reg.external_for(qn2)
+            if ext is not None:
+                I.ctx.assumptions_used.add(f"external:{qn2}")
+                return ext(I, [fn] + list(args), kwargs)
     if getattr(fn, "__name__", "") == "join" and isinstance(getattr(fn, "__self__", None), (bytes, bytearray)) and len(args) == 1:
         # sep.join(iterable of bytes): concatenation (separator must be empty for symbolic items)
         items = args[0].items() if isinstance(args[0], LazyGen) else I.iterate_concrete(args[0])
@@ -451,10 +457,16 @@ def construct(I, cls, args, kwargs):
         return STypedInt(t, cls)
     if issubclass(cls, (bytes,)) and _has_sym(args):
         return SBytes(bytes_term(args[0]))
+    if source.is_repo_module(getattr(cls, "__module__", "")) and not dataclasses.is_dataclass(cls) \
+            and not issubclass(cls, (int, bytes)) and _repo_method(cls, "__init__") is not None:
+        # a class of the repository: its real __init__ runs on a fresh record
+        init = _repo_method(cls, "__init__")
+        obj = SObj(cls, {})
+        call_pyfunc(I, init, args, kwargs, bound_self=obj, have_self=True)
+        I.ctx.emit("construct", cls, obj)
+        return obj
     if _has_sym(args) or _has_sym(kwargs):
         return construct_record(I, cls, args, kwargs)
-    if source.is_repo_module(getattr(cls, "__module__", "")) and not dataclasses.is_dataclass(cls):
-        raise Unsupported(f"construction of repo class {cls.__qualname__} without a constructor contract")
     try:
         return cls(*args, **kwargs)
     except Exception as e:
@@ -667,6 +679,8 @@ def b_isinstance(I, args, kwargs):
 
 def b_type(I, args, kwargs):
     (v,) = args
+    if isinstance(v, SOpt):
+        v = v.value if I.fmode else I.unwrap_opt(v, "type() argument")
     if isinstance(v, (SObj, SEnum)):
         return v.cls
     if isinstance(v, STypedInt):
